@@ -145,12 +145,19 @@ def check_case(ctx, case):
         raw.__doc__ = "docstring of the original"
     via = case.get("via")
     passthrough = []
-    if via == "wraps" and desc in ("function", "staticmethod") and kind != "async":
+    if via in ("wraps", "wraps-jaxtyped") and desc in ("function", "staticmethod") and kind != "async":
         # the decorated callable is a functools.wraps pass-through around the generated function: it sees exactly the
         # (args, kwargs) it is called with -- which must be the caller's, not a normalised form of them
         import functools
 
         inner = raw
+        if via == "wraps-jaxtyped":
+            # ... around a function that is itself already jaxtyped with the same typechecker (hand-written decorators below an
+            # ordinary user decorator, the import hook or a class decorator on top): the outer level still is a decorated function
+            # of its own -- an ill-typed call never reaches the user decorator
+            with warnings.catch_warnings():
+                warnings.simplefilter("ignore")
+                inner = jaxtyped(typechecker=gc.checker(ck))(raw)
 
         @functools.wraps(inner)
         def raw(*a, **k):
@@ -302,6 +309,8 @@ def check_case(ctx, case):
                 where = f"ill-typed parameter {p['name']}{' (explicit None)' if bad_none else ''} args={args!r} kwargs={kwargs!r} {info}"
                 if len(rec.calls) != 0:
                     raise Violation("body-ran-ill-typed", case, f"body ran although {where}")
+                if passthrough:
+                    raise Violation("body-ran-ill-typed", case, f"the decorated (functools.wraps pass-through) callable was entered although {where}")
                 if not (st_ == "raise" and isinstance(val, TypeCheckError)):
                     raise Violation("ill-typed-not-rejected", case, f"got {st_} {val!r} {where}")
         # ---- non-binding calls
@@ -378,7 +387,7 @@ def c07_case(draw):
         "postponed": draw(st.sampled_from([False, True])),  # evaluated annotation objects / 'from __future__ import annotations'
         "body_exc": draw(st.sampled_from(["ValueError", "RecursionError", "ValueError", "MemoryError", "LookupError", "FrozenError"])),
         "lambda_annotations": draw(st.sampled_from([True, False])),
-        "via": draw(st.sampled_from([None, "wraps", None, "asyncwrap", None])),
+        "via": draw(st.sampled_from([None, "wraps", None, "asyncwrap", "wraps-jaxtyped", None])),
     }
     return case
 
